@@ -230,3 +230,92 @@ theorem decompress_spec (x : Nat) (odd : Bool) (q : Point) (h : decompress x odd
     exact ⟨by omega, y0, hy, h.symm⟩
 
 end BV.C11.Parsers
+
+namespace BV.C11.Parsers
+open BV.Secp256k1 BV.C11 BV.C11.Bytes BV.C11.Der
+
+theorem powModAux_lt (m : Nat) (hm : 0 < m) (fuel a e acc : Nat) (h : acc < m) : powModAux m fuel a e acc < m := by
+  induction fuel generalizing a e acc with
+  | zero => simpa [powModAux] using h
+  | succ f ih =>
+    unfold powModAux
+    split
+    · exact h
+    · apply ih
+      split
+      · exact Nat.mod_lt _ hm
+      · exact h
+
+theorem fsqrt_lt (a y : Nat) (h : fsqrt a = some y) : y < p := by
+  unfold fsqrt at h
+  simp only [] at h
+  split at h
+  · injection h with h
+    rw [← h]
+    unfold powMod
+    exact powModAux_lt p (by decide) _ _ _ _ (Nat.mod_lt _ (by decide))
+  · cases h
+
+/-- serialise ∘ parse = id on accepted compressed keys (02 / 03): the parser returns the point with the
+    requested parity, so re-serialising gives the input back. -/
+theorem serializeCompressed_parse (b : List UInt8) (q : Point) (hl : b.length = 33)
+    (h : parsePubKey b = some q) : serializeCompressed q = b := by
+  unfold parsePubKey at h
+  split at h
+  · cases h
+  rename_i fmt body
+  have h65 : ¬ ((fmt :: body).length = 65) := by omega
+  rw [if_neg h65, if_pos hl] at h
+  split at h
+  · cases h
+  rename_i hf
+  obtain ⟨hx, y0, hy, hq⟩ := decompress_spec _ _ _ h
+  have hy0 := fsqrt_lt _ _ hy
+  have hbl : body.length = 32 := by simpa using hl
+  have e1 := toBE_fromBE_exact body
+  rw [hbl] at e1
+  have hp2 : p % 2 = 1 := by decide
+  have key : ∀ pp y : Nat, pp % 2 = 1 → y < pp →
+      (y % 2 = 1 → ¬ (pp - y) % 2 = 1) ∧ (¬ y % 2 = 1 → (pp - y) % 2 = 1) := by
+    intro pp y h1 h2; omega
+  obtain ⟨k1, k2⟩ := key p y0 hp2 hy0
+  rw [hq]
+  simp only [serializeCompressed, e1]
+  refine congrArg (fun z => z :: body) ?_
+  generalize p - y0 = w at k1 k2 ⊢
+  clear hy hx hy0 hp2 key h hq
+  have parity_cases : ∀ (c : Bool) (f : UInt8), (c = true ↔ f = 0x03) → (f = 0x03 ∨ f = 0x02) →
+      ∀ y w : Nat, (y % 2 = 1 → ¬ w % 2 = 1) → (¬ y % 2 = 1 → w % 2 = 1) →
+      (if (if ((y % 2 == 1) == c) = true then y else w) % 2 = 1 then (0x03 : UInt8) else 0x02) = f := by
+    intro c f hc hf y w a1 a2
+    by_cases hy : y % 2 = 1
+    · cases c
+      · have : f = 0x02 := by
+          rcases hf with hf | hf
+          · exact absurd (hc.mpr hf) (by decide)
+          · exact hf
+        have hb : ((y % 2 == 1) == false) = false := by simp [hy]
+        rw [hb]; simp only [Bool.false_eq_true, if_false]
+        rw [if_neg (a1 hy), this]
+      · have hb : ((y % 2 == 1) == true) = true := by simp [hy]
+        rw [hb]; simp only [if_true]
+        rw [if_pos hy, hc.mp rfl]
+    · cases c
+      · have : f = 0x02 := by
+          rcases hf with hf | hf
+          · exact absurd (hc.mpr hf) (by decide)
+          · exact hf
+        have hb : ((y % 2 == 1) == false) = true := by simp [hy]
+        rw [hb]; simp only [if_true]
+        rw [if_neg hy, this]
+      · have hb : ((y % 2 == 1) == true) = false := by simp [hy]
+        rw [hb]; simp only [Bool.false_eq_true, if_false]
+        rw [if_pos (a2 hy), hc.mp rfl]
+  apply parity_cases _ _ (by simp) _ _ _ k1 k2
+  by_cases h3 : fmt = 0x03
+  · exact Or.inl h3
+  · by_cases h2 : fmt = 0x02
+    · exact Or.inr h2
+    · exact absurd ⟨h2, h3⟩ hf
+
+end BV.C11.Parsers
